@@ -216,8 +216,12 @@ GtsInst(n, v, kz) ==
       GB == Mat(n, Nrhs, LAMBDA i, j : 2 * ((H(i, j + kz, 225) % 9) - 4))
   IN [fam |-> "gts", m |-> n, n |-> n, v |-> v, den |-> 2, kz |-> kz, ok |-> FALSE, R |-> Nrhs,
       gdl |-> VecSeq(gdl, n - 1), gd |-> VecSeq(gd, n), gdu |-> VecSeq(gdu, n - 1), GB |-> MatSeq(GB, n, Nrhs), tol |-> 0]
-GtsCases == {[f |-> "gts", m |-> kz, n |-> n, v |-> 0, w |-> 0] : n \in 1 .. Small + 2, kz \in 0 .. Small + 1}
-              \cup {[f |-> "gts", m |-> 0, n |-> n, v |-> 1, w |-> 0] : n \in 1 .. Small + 2}
+\* orders above 8 are left out: GtsLemma runs the exact rational elimination in TLC's 32-bit integers, and at n = 10 a
+\* seed-dependent fill overflows them (thorough tier, seed 2: "Overflow when computing 302245*75559" - a run that TLC
+\* cannot finish is exit 2, not a verdict)
+GtsMaxN == IF Small + 2 > 8 THEN 8 ELSE Small + 2
+GtsCases == {[f |-> "gts", m |-> kz, n |-> n, v |-> 0, w |-> 0] : n \in 1 .. GtsMaxN, kz \in 0 .. GtsMaxN - 1}
+              \cup {[f |-> "gts", m |-> 0, n |-> n, v |-> 1, w |-> 0] : n \in 1 .. GtsMaxN}
 GtsValid(x) == IF x.v = 0 THEN x.m < x.n ELSE x.n % 2 = 1
 
 (****************************************************************************)
